@@ -257,6 +257,7 @@ fn reassembly_single(init: Option<isize>) -> SingleOut {
 // @verif tier=quick unwind=10 unwindset=dealloc_buffer_aligned:100
 #[kani::proof]
 #[kani::stub(std::hash::RandomState::new, fixed_random_state)]
+#[kani::stub(<std::hash::DefaultHasher as std::hash::Hasher>::finish, fixed_finish)]
 fn c01_reassembly_single_session_growth() {
     let o = reassembly_single(Some(64));
     kani::cover!(o.delivered == 1 && o.first_len == 71, "[must] three fragments reassembled: growth path of the builder taken twice");
@@ -270,6 +271,7 @@ fn c01_reassembly_single_session_growth() {
 // @verif tier=quick unwind=10
 #[kani::proof]
 #[kani::stub(std::hash::RandomState::new, fixed_random_state)]
+#[kani::stub(<std::hash::DefaultHasher as std::hash::Hasher>::finish, fixed_finish)]
 fn c01_reassembly_single_session_default_buffer() {
     let o = reassembly_single(None);
     kani::cover!(o.delivered == 1 && o.first_len == 71, "[must] three fragments reassembled");
@@ -280,6 +282,7 @@ fn c01_reassembly_single_session_default_buffer() {
 // @verif tier=thorough unwind=10 unwindset=dealloc_buffer_aligned:110
 #[kani::proof]
 #[kani::stub(std::hash::RandomState::new, fixed_random_state)]
+#[kani::stub(<std::hash::DefaultHasher as std::hash::Hasher>::finish, fixed_finish)]
 fn c01_reassembly_single_session_header_only_buffer() {
     let o = reassembly_single(Some(32));
     kani::cover!(o.delivered == 1 && o.first_len == 71, "[must] three fragments reassembled: growth path of the builder taken");
@@ -812,7 +815,7 @@ fn c20_zz_probe_asm() {
     let tb = term.buf();
     let mut got = Got::new(3, [tb.buffer() as usize, 0]);
     let mut delegate = |b: &AtomicBuffer, off: Index, len: Index, h: &Header| got.note(b, off, len, h);
-    let mut asm = ManuallyDrop::new(FragmentAssembler::new(&mut delegate, None));
+    let asm: &mut FragmentAssembler = Box::leak(Box::new(FragmentAssembler::new(&mut delegate, None)));
     {
         let mut handler = asm.handler();
         let mut hdr = Header::new(TERM_ID, 256);
@@ -838,4 +841,19 @@ fn c20_zz_probe_map() {
     let v = match m.get(&5) { Some(v) => *v, None => 9 };
     spin_map(v as i64);
     std::mem::forget(m);
+}
+
+spin!(spin_ms);
+spin!(spin_plain);
+// @verif tier=off unwind=10
+#[kani::proof]
+fn c20_zz_probe_memset() {
+    unsafe {
+        let p = std::alloc::alloc(std::alloc::Layout::from_size_align_unchecked(116, 16));
+        *p.add(100) = 3;
+        spin_plain(*p.add(100) as i64);
+        p.add(96).write_bytes(0xFF, 20);
+        spin_ms(*p.add(99) as i64 - 252);
+        spin_plain(*p.add(100) as i64 - 252);
+    }
 }
